@@ -161,4 +161,134 @@ Proof.
   eapply Forall_impl; [|exact Htok]. intros tk Hv. apply valid_token_no; assumption.
 Qed.
 
+(* ------------------------------------------------------------------ typed user ids *)
+Definition uval_ok (u : uval) : Prop :=
+  match u with
+  | VStr t => forallb valid_scalar t = true
+  | VInt _ => True
+  | VBytes b => Forall (fun x => x < 256) b
+  end.
+Definition tag_of (u : uval) : text :=
+  fst (match u with VInt _ => enc_int | VStr _ => enc_str | VBytes _ => enc_bytes end).
+
+Lemma encode1_bytes c : valid_scalar c = true -> Forall (fun b => b < 256) (encode1 c).
+Proof.
+  unfold valid_scalar, encode1. intros Hv.
+  destruct (c <? 128) eqn:E1; [repeat constructor; lia|].
+  destruct (c <? 2048) eqn:E2; [repeat constructor; lia|].
+  destruct (c <? 65536) eqn:E3; repeat constructor; lia.
+Qed.
+
+Lemma encode_bytes t : forallb valid_scalar t = true -> Forall (fun b => b < 256) (encode t).
+Proof.
+  induction t as [|c t IH]; simpl; intros Hv; [constructor|].
+  apply andb_true_iff in Hv as [Hc Ht]. unfold encode. simpl. apply Forall_app. split.
+  - apply encode1_bytes. assumption.
+  - apply IH. assumption.
+Qed.
+
+Lemma ascii_is_bytes s : is_ascii s = true -> is_bytes s = true.
+Proof.
+  unfold is_ascii, is_bytes. rewrite !forallb_forall. intros Hs x Hx. specialize (Hs x Hx). lia.
+Qed.
+
+Lemma decode_one ty u0 :
+  decode_userid uni [userid_typename ++ ty] u0 =
+  match lookup_text ty decoders with
+  | Some k => apply_dec uni k u0
+  | None => Some u0
+  end.
+Proof.
+  assert (SP : starts_typename (userid_typename ++ ty) = Some ty).
+  { unfold starts_typename. apply strip_prefix_spec. reflexivity. }
+  cbn [decode_userid]. destruct (userid_typename ++ ty) as [|x l] eqn:E.
+  - exfalso. apply (f_equal (@length N)) in E. rewrite app_length in E. simpl in E. discriminate.
+  - rewrite SP. destruct (lookup_text ty decoders) as [k|]; [|reflexivity].
+    destruct (apply_dec uni k u0); reflexivity.
+Qed.
+
+Lemma ud_facts u :
+  let ud := userid_typename ++ tag_of u in
+  ud <> [] /\ ~ In bang ud /\ last ud 0 <> strip_ch /\ split_on pipe ud = [ud].
+Proof.
+  destruct u; cbv zeta; (split; [discriminate|]); (split; [intros Hin; apply memN_In in Hin; vm_compute in Hin; discriminate|]);
+    (split; [vm_compute; discriminate|vm_compute; reflexivity]).
+Qed.
+
+Lemma encode_userid_ok u :
+  uval_ok u ->
+  exists enc, encode_userid u = Some (tag_of u, enc) /\ is_ascii enc = true
+              /\ decode_userid uni [userid_typename ++ tag_of u] (VStr enc) = Some u.
+Proof.
+  destruct u as [t|z|b]; cbn [uval_ok]; intros Hok.
+  - exists (b64encode (encode t)).
+    pose proof (encode_bytes t Hok) as HB. pose proof (b64encode_ascii _ HB) as HA.
+    split; [unfold encode_userid; simpl; rewrite Hok; reflexivity|]. split; [exact HA|].
+    rewrite decode_one. change (lookup_text (tag_of (VStr t)) decoders) with (Some DB64Utf8).
+    unfold apply_dec. rewrite (ascii_is_bytes _ HA), (b64decode_encode _ HB), (decode_encode t Hok). reflexivity.
+  - exists (dec_of_Z z). split; [reflexivity|]. split; [apply dec_of_Z_ascii|].
+    rewrite decode_one. change (lookup_text (tag_of (VInt z)) decoders) with (Some DInt).
+    unfold apply_dec. rewrite py_int_dec_of_Z. reflexivity.
+  - exists (b64encode b). pose proof (b64encode_ascii _ Hok) as HA.
+    split; [reflexivity|]. split; [exact HA|].
+    rewrite decode_one. change (lookup_text (tag_of (VBytes b)) decoders) with (Some DB64).
+    unfold apply_dec. rewrite (ascii_is_bytes _ HA), (b64decode_encode _ Hok). reflexivity.
+Qed.
+
+(* the code's timeout test is the property's "at most issue time plus timeout" *)
+Lemma timed_out_spec c ts nw :
+  timed_out c ts nw = match timeout c with
+                      | Some t => negb (Z.eqb t 0) && negb (Z.leb nw (ts + t))
+                      | None => false
+                      end.
+Proof.
+  unfold timed_out. destruct (timeout c) as [t|]; [|reflexivity].
+  change (cmp_eval timeout_cmp (ts + t) nw) with (Z.ltb (ts + t) nw).
+  rewrite Z.leb_antisym. rewrite negb_involutive. reflexivity.
+Qed.
+
+Local Opaque userid_typename.
+
+(* a ticket issued by remember() at [now r], presented at [now r'] to a helper with the same secret,
+   algorithm and (effective) address: exactly the issued identity, user-id type preserved, as long as
+   now r' <= now r + timeout (or no timeout); nothing afterwards *)
+Theorem identify_roundtrip c r r' u ma toks hs k v :
+  H_len -> H_head -> (0 <= now r < 4294967296)%Z -> uval_ok u ->
+  remember H c r u ma toks = Some hs -> In k hs -> ck_value k = Some v ->
+  cookie r' = Some v -> eff_ip c r' = eff_ip c r ->
+  identify_pre H dsz uni c r' =
+  match spec_issued_identity c (Z.to_N (now r)) u (match toks with [] => [[]] | _ => toks end) (now r') with
+  | Some (ts, u', tk) => ISome ts u' tk (userid_typename ++ tag_of u)
+  | None => INone
+  end.
+Proof.
+  intros HL HH Hnow Hok Hrem Hin Hv Hck Hip.
+  destruct (encode_userid_ok u Hok) as (enc & EE & EA & ED).
+  destruct (ud_facts u) as (U1 & U2 & U3 & U4).
+  unfold remember in Hrem. destruct (eff_ip c r) as [ip|] eqn:Eip; [|discriminate].
+  rewrite EE in Hrem. destruct (forallb valid_token toks) eqn:Etok; [|discriminate].
+  inversion Hrem; subst hs; clear Hrem. destruct Hin as [<-|[]]. cbn [ck_value] in Hv. inversion Hv; subst v; clear Hv.
+  unfold identify_pre. rewrite Hck, Hip.
+  assert (Ftok : Forall (fun tk => valid_token tk = true) toks) by (apply Forall_forall; apply forallb_forall; exact Etok).
+  rewrite ticket_roundtrip; auto; [|lia].
+  rewrite timed_out_spec. unfold spec_issued_identity. rewrite !Z2N.id by lia.
+  rewrite U4, ED.
+  destruct (timeout c) as [t|]; [|reflexivity].
+  destruct (negb (Z.eqb t 0) && negb (Z.leb (now r') (now r + t))); reflexivity.
+Qed.
+
 End RT.
+
+(* boundary: accepted at now = issue + timeout, rejected one second later *)
+Corollary identify_boundary c t0 u toks t :
+  timeout c = Some t -> (0 < t)%Z ->
+  spec_issued_identity c t0 u toks (Z.of_N t0 + t) = Some (Z.of_N t0, u, toks)
+  /\ spec_issued_identity c t0 u toks (Z.of_N t0 + t + 1) = None.
+Proof.
+  intros Ht Hpos. unfold spec_issued_identity. rewrite Ht.
+  assert (E0 : Z.eqb t 0 = false) by lia. rewrite E0.
+  assert (E1 : Z.leb (Z.of_N t0 + t) (Z.of_N t0 + t) = true) by lia.
+  assert (E2 : Z.leb (Z.of_N t0 + t + 1) (Z.of_N t0 + t) = false) by lia.
+  rewrite E1, E2. split; reflexivity.
+Qed.
+
